@@ -359,7 +359,7 @@ func genState(sp stateSpec, tier string) core.Case {
 }
 
 func (engine) Generate(rng *rand.Rand, tier string) []core.Case {
-	nStates := map[string]int{"tx": 12, "addr": 6}
+	nStates := map[string]int{"tx": 16, "addr": 8}
 	if tier == "thorough" {
 		nStates = map[string]int{"tx": 24, "addr": 10}
 	}
